@@ -124,3 +124,14 @@ Definition dispatches_all_due (key_of_slot : N -> N) (by_slot need_inc : bool) (
   forall l d, last_attempt (hist ++ pre) (key_of_slot s) = Some (AOk l) -> In d l ->
   (by_slot = true -> d_slot d = s) -> (need_inc = true -> d_inc d = true) ->
   incl (owes s d) disp.
+
+(* [P hist s now pre disp] holds for every tick record of a run; [hist] = trace before the record *)
+Definition for_all_ticks (init_obs : list obs) (recs : list (event * out))
+           (P : list obs -> N -> N -> list obs -> list obs -> Prop) : Prop :=
+  forall before s now ac an pre disp post after,
+    recs = before ++ (Tick s now ac an, (pre, disp, post)) :: after ->
+    P (init_obs ++ trace_of before) s now pre disp.
+
+Definition event_slot (ev : event) : N :=
+  match ev with Tick s _ _ _ => s | Reorg r _ _ => r | Indices r => r end.
+Definition is_tick (ev : event) : bool := match ev with Tick _ _ _ _ => true | _ => false end.
